@@ -170,8 +170,8 @@ def run(chk, repo):
     chk.attempt(r1, chk, repo)
     chk.attempt(r2, chk, repo)
     chk.attempt(r3, chk, repo, L)
-    chk.attempt(r4, chk, repo, L)
     chk.attempt(trace_positions, chk, repo)
+    chk.attempt(r4, chk, repo, L, covered_by="trace_positions", rules=("C01-R4",))
     chk.attempt(r5, chk, repo, L, covered_by="trace_positions", rules=("C01-R5",))
     chk.attempt(r6, chk, repo, L)
     chk.attempt(r6_read_metadata, chk, repo, L, covered_by="trace_positions", rules=("C01-R6",))
@@ -381,6 +381,15 @@ def r4(chk, repo, L):
         chk.ok("C01-R4", f"{io.relpath}:adjust_offsets", "returns the adjusted records")
     where = f"{site_fi.module.relpath}:{site_fi.qualname}"
     bumped = {}
+    # local names for parts of the record (`byte_range = record.data`): stores through them are stores into the record
+    alias = {}
+    for n in scope_nodes:
+        if isinstance(n, ast.Assign) and len(n.targets) == 1 and isinstance(n.targets[0], ast.Name) and isinstance(n.value, ast.Attribute) and norm(n.value).startswith(rec + "."):
+            alias[n.targets[0].id] = norm(n.value)
+
+    def unalias(txt):
+        head, _, rest = txt.partition(".")
+        return alias[head] + "." + rest if head in alias and rest else txt
     for n in scope_nodes:
         path = None
         if isinstance(n, ast.AugAssign) and isinstance(n.op, ast.Add) and isinstance(n.value, ast.Name) and n.value.id == off:
@@ -395,12 +404,15 @@ def r4(chk, repo, L):
             else:
                 path = t + "!"
         if path is not None:
+            path = unalias(path)
             bumped[path] = bumped.get(path, 0) + 1
     pos_fields = set()
     for key in ("signal", "processed"):
         for lf in L.by_name(key).values():
             if lf.kind in ("tell", "seek"):
                 pos_fields.add(f"{rec}." + lf.name)
+    if not any(bumped.get(p) for p in pos_fields):
+        raise AnalysisError(f"{where}: no `<record>.<position field> += {off}` found in the recognised form; whether every position comes back absolute is decided by evaluating the metadata pass (C01-R9)")
     for p in sorted(pos_fields):
         chk.require(bumped.get(p) == 1, "C01-R4", where, f"{p} += offset (once)",
                     f"{p} is a stream position recorded relative to the chunk but it is rebased {bumped.get(p, 0)} time(s): rows are sliced from the wrong file offset",
